@@ -123,6 +123,7 @@ void mark_progress();     // current fiber did useful work
 void global_progress();   // the system as a whole made progress (liveness)
 void request_abort();     // leave the parallel region at the next scheduling point
 void harness_yield(const void *addr = nullptr); // explicit scheduling point
+int last_unlock_holder();                       // who held the lock released last (-1: nobody)
 int lock_holder(const void *addr);              // fiber holding lock, or -1
 // lock tracking at the level of individual std::atomic operations (used by
 // the tsan shim; switches off the inference from hook H1's pre/post values)
